@@ -63,7 +63,13 @@ class Binding(object):
         if not seed:
             return None
         real = self.REAL_SEED.get(int(seed), int(seed))
-        return real if form == 'int' else np.random.RandomState(real)
+        if form == 'int':
+            return real
+        if form == 'shared':        # one RandomState object per seed, handed to every model that asks for that seed
+            if not hasattr(self, '_shared_rs'):
+                self._shared_rs = {}
+            return self._shared_rs.setdefault(real, np.random.RandomState(real))
+        return np.random.RandomState(real)
 
     newform = 'ctor'            # 'ctor' | 'class' | 'name': how New builds the object (get_instance forms)
 
@@ -99,6 +105,24 @@ class Binding(object):
 
     def query(self, m, method):
         raise NotImplementedError
+
+    def unfitted_variants(self, m, method):
+        """further argument compositions for a query of an unfitted model (thunks): every one of them must raise"""
+        return ()
+
+    def query_any(self, m, method):
+        """the query of the replayer.  A fitted model is asked once.  An unfitted model is asked with several argument compositions
+        (interior values, boundary values only, a single element): if any of them answers, that answer is the result of the step (so the
+        trace shows a returned call where an error was due); if all raise, the first exception is the result"""
+        if self.life(m) == 'fitted':
+            return self.query(m, method)
+        first = None
+        for thunk in (lambda: self.query(m, method),) + tuple(self.unfitted_variants(m, method)):
+            try:
+                return thunk()
+            except Exception as ex:
+                first = first or ex
+        raise first
 
     def sample(self, m, n):
         return m.sample(n)
@@ -225,6 +249,12 @@ class UniBinding(Binding):
             return m.log_probability_density(UNI_X.copy())
         raise KeyError(method)
 
+    def unfitted_variants(self, m, method):
+        if method == 'ppf':
+            return tuple((lambda q=q: m.percent_point(np.array(q))) for q in ([0.0, 1.0], [0.0], [1.0], [0.5]))
+        f = {'pdf': m.probability_density, 'cdf': m.cumulative_distribution, 'logpdf': m.log_probability_density}[method]
+        return tuple((lambda x=x: f(np.array(x))) for x in ([1e300], [-1e300, 3.5], [0.0]))
+
     def family(self, m):
         inst = getattr(m, '_instance', None)
         return type(inst).__name__ if inst is not None and type(m).__name__ == 'Univariate' else type(m).__name__
@@ -277,7 +307,7 @@ def bi_data(d):
             z[:, 1] = 0.7 * z[:, 0] + 0.7 * z[:, 1]
         elif d == 'M':                      # perfectly concordant: Kendall tau = 1 (Clayton theta = inf, an edge parameter)
             rs = np.random.RandomState(23)
-            z = rs.normal(size=(12, 1)).repeat(2, axis=1)
+            z = rs.normal(size=(40, 1)).repeat(2, axis=1)           # 40 rows: SciPy's tau-b is exactly 1.0 (for 12 rows it is 1 - 2e-16)
         else:
             raise KeyError(d)
         n = len(z)
@@ -343,6 +373,12 @@ class BiBinding(Binding):
             return m.partial_derivative(BI_X.copy())
         raise KeyError(method)
 
+    def unfitted_variants(self, m, method):
+        if method == 'ppf':
+            return tuple((lambda y=y, v=v: m.percent_point(np.array(y), np.array(v))) for y, v in (([0.0], [0.0]), ([1.0], [1.0]), ([0.5], [1.0])))
+        f = {'pdf': m.probability_density, 'cdf': m.cumulative_distribution, 'pd': m.partial_derivative}[method]
+        return tuple((lambda x=x: f(np.array(x))) for x in ([[0.0, 0.0]], [[1.0, 1.0], [0.0, 0.3]], [[0.5, 0.5]]))
+
     def obs_methods(self):
         return ('pdf', 'cdf', 'ppf', 'pd')
 
@@ -360,9 +396,9 @@ def mv_data(d, ncol):
     key = (d, ncol)
     if key not in _M:
         cols = list('abcdef')[:ncol]
-        if d in ('A', 'B', 'K1'):
-            rs = np.random.RandomState({'A': 31, 'B': 32, 'K1': 33}[d] + ncol)
-            n = {'A': 50, 'B': 30, 'K1': 40}[d]
+        if d in ('A', 'B', 'K1', 'K2'):
+            rs = np.random.RandomState({'A': 31, 'B': 32, 'K1': 33, 'K2': 34}[d] + ncol)
+            n = {'A': 50, 'B': 30, 'K1': 40, 'K2': 36}[d]
             z = rs.normal(size=(n, ncol))
             for j in range(1, ncol):
                 z[:, j] = 0.6 * z[:, j - 1] + 0.8 * z[:, j]
@@ -372,6 +408,8 @@ def mv_data(d, ncol):
             df[cols[0]] = np.exp(df[cols[0]] / (3.0 if d == 'B' else 1.0))
             if d == 'K1':
                 df[cols[-1]] = 4.25
+            if d == 'K2':                   # the first column is the constant one
+                df[cols[0]] = 3.0
         elif d == 'NAN':
             df = mv_data('A', ncol).copy()
             df.iloc[3, 1] = np.nan
@@ -401,7 +439,7 @@ def mv_probe(ncol):
 class GaussBinding(Binding):
     kind = 'gauss'
     rejects = True
-    valid = ('A', 'B', 'K1')
+    valid = ('A', 'B', 'K1', 'K2')
     invalid = ('NAN', 'EMPTY', 'TEXT', 'BOOL', 'DATE')
     cfgs = ('c1', 'c2')
 
@@ -440,6 +478,11 @@ class GaussBinding(Binding):
         if method == 'logpdf':
             return m.log_probability_density(X)
         raise KeyError(method)
+
+    def unfitted_variants(self, m, method):
+        X = mv_probe(self.ncol)
+        f = {'pdf': m.probability_density, 'cdf': m.cumulative_distribution, 'logpdf': m.log_probability_density}[method]
+        return (lambda: f(X.iloc[:1]), lambda: f(X.to_numpy()), lambda: f(X.iloc[0]))
 
     def obs_methods(self):
         return ('pdf', 'logpdf') if self.query_draws else ('pdf', 'logpdf', 'cdf')
